@@ -34,6 +34,34 @@ const (
 	opFSMStoreConfig
 )
 
+// vCrashCtl: crash-point enumeration. Every durable mutating store call ticks the
+// shared counter; the call with ordinal `at` does not happen: the server "crashes"
+// (panic mCrash, caught by the harness) with exactly the durable image the earlier
+// calls left. at == 0: no crash.
+type vCrashCtl struct {
+	n       int // durable calls seen so far
+	max     int // bound on the crash points of one run (checked: reaching it fails the run)
+	crashed bool
+	over    bool
+}
+
+// tick is called at the start of every durable mutating store call: the run forks into "the process
+// dies here" (the call and everything after it never happen) and "it goes on".
+func (c *vCrashCtl) tick() {
+	if c == nil || c.crashed {
+		return
+	}
+	c.n++
+	if c.n > c.max {
+		c.over = true
+		return
+	}
+	if vChoose("crashHere", 0, 1) == 1 {
+		c.crashed = true
+		panic(mCrash{})
+	}
+}
+
 type mCall struct {
 	op   int
 	a, b uint64
@@ -51,6 +79,10 @@ type mLogStore struct {
 	failOn     bool
 	writesOnly bool // with failOn: only StoreLogs/DeleteRange may fail
 	calls      []mCall
+	crash      *vCrashCtl
+	// partialDelete: a failing DeleteRange may already have removed a prefix of the range (a backend
+	// without transactions); default: failures are atomic
+	partialDelete bool
 }
 
 // vNewLogStore creates a store with arbitrary content in the window
@@ -186,6 +218,7 @@ func (s *mLogStore) StoreLogs(logs []*Log) error {
 	if len(logs) > 0 {
 		first, last = logs[0].Index, logs[len(logs)-1].Index
 	}
+	s.crash.tick()
 	if s.failOn && vFail("StoreLogs") {
 		s.note(opStoreLogs, first, last, false)
 		return errInjected
@@ -204,10 +237,26 @@ func (s *mLogStore) StoreLogs(logs []*Log) error {
 }
 
 func (s *mLogStore) DeleteRange(min, max uint64) error {
+	s.crash.tick()
 	if s.failOn && vFail("DeleteRange") {
+		if s.partialDelete {
+			if cut := vChoose("DeleteRange.partial", 0, s.w); cut > 0 {
+				upto := vBase() + uint64(cut)
+				upto = vIte64(upto < max, upto, max)
+				if upto >= min {
+					s.applyDelete(min, upto)
+				}
+			}
+		}
 		s.note(opDeleteRange, min, max, false)
 		return errInjected
 	}
+	s.applyDelete(min, max)
+	s.note(opDeleteRange, min, max, true)
+	return nil
+}
+
+func (s *mLogStore) applyDelete(min, max uint64) {
 	base := vBase()
 	for k := 1; k <= s.w; k++ {
 		idx := base + uint64(k)
@@ -216,11 +265,11 @@ func (s *mLogStore) DeleteRange(min, max uint64) error {
 	}
 	low := vIte64(min <= s.low, max+1, s.low)
 	high := vIte64(max >= s.high, min-1, s.high)
-	none := low > high
+	// an empty store stays empty (InmemStore itself would report low = max+1, high = MaxUint64 after
+	// DeleteRange(0, max) on an empty store - an artefact of that test store, not of the LogStore contract)
+	none := vOr(low > high, vAnd(s.low == 0, s.high == 0))
 	s.low = vIte64(none, 0, low)
 	s.high = vIte64(none, 0, high)
-	s.note(opDeleteRange, min, max, true)
-	return nil
 }
 
 // flavours
@@ -239,6 +288,7 @@ type mCommitLogStore struct {
 }
 
 func (s *mCommitLogStore) StageCommitIndex(idx uint64) error {
+	s.crash.tick()
 	if s.failOn && vFail("StageCommitIndex") {
 		s.note(opStageCommit, idx, 0, false)
 		return errInjected
@@ -266,6 +316,7 @@ type mStable struct {
 	calls     []mCall
 	crashAt   int // >0: the call with this ordinal "crashes" (panics mCrash) before taking effect
 	ncalls    int
+	crash     *vCrashCtl
 	// ghost: arguments of the vote-record write attempts of the current handler call
 	hasT, hasC bool
 	pendT      uint64
@@ -275,6 +326,7 @@ type mStable struct {
 type mCrash struct{}
 
 func (s *mStable) tick() {
+	s.crash.tick()
 	s.ncalls++
 	if s.crashAt > 0 && s.ncalls == s.crashAt {
 		panic(mCrash{})
